@@ -99,11 +99,6 @@ theorem ainv_applyOp {k : K} (h : AInv k) (op : KOp) : AInv (applyOp op k) := by
       · simp only [e, if_false]
         exact ⟨(h q).1, fun rid hr => by have := (h q).2 rid hr; omega⟩
     · unfold addReactions; simp only [hlt, if_false]; exact h
-  | swap =>
-    simp only [applyOp, swap]
-    split
-    · exact ainv_congr h rfl rfl
-    · exact h
   | popJob =>
     simp only [applyOp, popJob]
     split
@@ -195,9 +190,6 @@ theorem shape_applyOp (k : K) (op : KOp) : Shape k (applyOp op k) := by
         · exact .enq [_] 1 rfl (by simp [Job.sid, List.range'_one]) rfl rfl
         · exact .enq [_] 1 rfl (by simp [Job.sid, List.range'_one, track]) rfl rfl
     · exact shape_same rfl rfl rfl
-  | swap =>
-    simp only [applyOp, swap]
-    split <;> exact shape_same rfl rfl rfl
   | popJob =>
     simp only [applyOp, popJob]
     split
@@ -232,12 +224,79 @@ theorem after_step {R0 : List Job} {N : Nat} {k k' : K} (hq : QInv k) (h : After
   | drop a c d =>
     -- the started jobs beyond R0 are among the later ones
     have hf := hq.fifo
-    rw [hx, hl, List.append_assoc, List.append_assoc] at hf
-    have hl2 : x ++ (k.cur ++ k.queue) = l := List.append_cancel_left hf
+    rw [hx, hl, List.append_assoc] at hf
+    have hl2 : x ++ k.jobs = l := List.append_cancel_left hf
     refine ⟨⟨x, by rw [a, hx], ?_⟩, by rw [c]; exact h.next, ⟨x, by rw [d, hx]⟩⟩
     intro j hj
     apply hlb
     rw [← hl2]
     exact List.mem_append_left _ hj
+
+/-! ### (3) body ops only append to the job list -/
+
+theorem jobs_trigger (k : K) (owner : Nat) (rs : List Reaction) (arg : Val) :
+    (∃ js, (trigger k owner rs arg).jobs = k.jobs ++ js) ∧ (trigger k owner rs arg).ran = k.ran := by
+  rw [trigger_eq]; exact ⟨⟨_, rfl⟩, rfl⟩
+
+theorem jobs_rejectP (k : K) (p : Nat) (v : Val) :
+    (∃ js, (rejectP k p v).jobs = k.jobs ++ js) ∧ (rejectP k p v).ran = k.ran := by
+  unfold rejectP
+  simp only []
+  rw [trigger_eq]
+  split <;> exact ⟨⟨_, rfl⟩, rfl⟩
+
+theorem jobs_fulfillP (k : K) (p : Nat) (v : Val) :
+    (∃ js, (fulfillP k p v).jobs = k.jobs ++ js) ∧ (fulfillP k p v).ran = k.ran := by
+  unfold fulfillP
+  simp only []
+  rw [trigger_eq]
+  exact ⟨⟨_, rfl⟩, rfl⟩
+
+theorem jobs_applyB (o : BOp) (k : K) :
+    (∃ js, (applyOp o.toK k).jobs = k.jobs ++ js) ∧ (applyOp o.toK k).ran = k.ran := by
+  have same : ∀ k' : K, k'.jobs = k.jobs → k'.ran = k.ran → (∃ js, k'.jobs = k.jobs ++ js) ∧ k'.ran = k.ran :=
+    fun k' h1 h2 => ⟨⟨[], by simp [h1]⟩, h2⟩
+  cases o with
+  | newCap => exact same _ rfl rfl
+  | callResolve l v look =>
+    simp only [BOp.toK, applyOp, callResolve]
+    split
+    · exact same _ rfl rfl
+    · split
+      · exact same _ rfl rfl
+      · rename_i p already hl hal
+        split
+        · exact jobs_rejectP { k with latches := k.latches.set l (p, true) } p _
+        · split
+          · exact jobs_rejectP { k with latches := k.latches.set l (p, true) } p _
+          · exact ⟨⟨_, rfl⟩, rfl⟩
+          · exact jobs_fulfillP { k with latches := k.latches.set l (p, true) } p _
+  | callReject l v =>
+    simp only [BOp.toK, applyOp, callReject]
+    split
+    · exact same _ rfl rfl
+    · split
+      · exact same _ rfl rfl
+      · rename_i p already hl hal
+        exact jobs_rejectP { k with latches := k.latches.set l (p, true) } p _
+  | addReactions p cap f g =>
+    simp only [BOp.toK, applyOp, addReactions]
+    split
+    · unfold markHandled addReactionsCore
+      simp only []
+      split
+      · exact same _ rfl rfl
+      · exact ⟨⟨_, rfl⟩, rfl⟩
+      · split <;> exact ⟨⟨_, rfl⟩, rfl⟩
+    · exact same _ rfl rfl
+
+/-- Code running inside an outermost call or a job only APPENDS to the list of not yet started jobs and starts none. -/
+theorem bodyReach_mono {k0 k : K} (h : BodyReach k0 k) : (∃ js, k.jobs = k0.jobs ++ js) ∧ k.ran = k0.ran := by
+  induction h with
+  | refl => exact ⟨⟨[], by simp⟩, rfl⟩
+  | step o _ ih =>
+    obtain ⟨⟨js, h1⟩, h2⟩ := ih
+    obtain ⟨⟨js2, h3⟩, h4⟩ := jobs_applyB o _
+    exact ⟨⟨js ++ js2, by rw [h3, h1, List.append_assoc]⟩, by rw [h4, h2]⟩
 
 end GojaModel.C10
